@@ -545,6 +545,9 @@ func DrawHEIF(l *core.Lane, tiff []byte, surround bool) *HEIF {
 type HEIFOpts struct {
 	ExtraIloc int // further (redundant) iloc boxes in meta
 	Brands    int // further compatible brands in ftyp
+	// InfeVariants > 0 adds that many further item-info entries of type mime/uri with empty or
+	// short names and content types (entries of 21, 22, 23 ... bytes)
+	InfeVariants int
 }
 
 func DrawHEIFOpts(l *core.Lane, tiff []byte, surround bool, ho HEIFOpts) *HEIF {
@@ -568,7 +571,21 @@ func DrawHEIFOpts(l *core.Lane, tiff []byte, surround bool, ho HEIFOpts) *HEIF {
 	}
 	hdlr := fullBox("hdlr", 0, 0, be32(0), []byte("pict"), make([]byte, 12), []byte{0})
 	pitm := fullBox("pitm", 0, 0, be16(1))
-	iinf := fullBox("iinf", 0, 0, be16(2), infe(1, "hvc1", nil), infe(2, "Exif", nil))
+	infes := [][]byte{infe(1, "hvc1", nil), infe(2, "Exif", nil)}
+	for i := 0; i < ho.InfeVariants; i++ {
+		typ := []string{"mime", "uri ", "mime"}[i%3]
+		var extra []byte // content_type / uri string, possibly absent, possibly unterminated
+		switch (i + ho.ExtraIloc) % 4 {
+		case 1:
+			extra = []byte{0}
+		case 2:
+			extra = []byte("a\x00")
+		case 3:
+			extra = []byte("application/rdf+xml\x00")
+		}
+		infes = append(infes, infe(uint16(3+i), typ, extra))
+	}
+	iinf := fullBox("iinf", 0, 0, append([][]byte{be16(uint16(len(infes)))}, infes...)...)
 	iprp := Box("iprp", Box("ipco", fullBox("ispe", 0, 0, be32(4000), be32(3000))), fullBox("ipma", 0, 0, be32(1), be16(1), []byte{1, 0x81}))
 	// Exif item payload: exif_tiff_header_offset(4) = 6, "Exif\0\0", TIFF
 	item := append(be32(6), []byte("Exif\x00\x00")...)
